@@ -51,7 +51,7 @@ MIN_EVENTS = {
                  'link_table_checks': 100, 'links_tracked': 150, 'link_disconnection_event_checks': 120,
                  'side_waiters': 100, 'real_transport_losses_observed': 12},
 }
-CASE_TIMEOUT = 900
+CASE_TIMEOUT = 1800
 EXHAUSTIVE_NOTE = 'thorough tier: every HCI message index of every listed procedure x 4 cut kinds'
 
 PROCS = ['gatt-read', 'gatt-long-read', 'gatt-write', 'gatt-discover', 'gatt-subscribe', 'gatt-indicate',
@@ -292,7 +292,7 @@ def make_op(ctx, proc):
         if proc == 'coc-disconnect':
             return await ctx['chan'].disconnect()
         if proc == 'coc-drain':
-            ctx['chan'].write(bytes(60000))
+            ctx['chan'].write(bytes(24000))   # ~100 credit rounds: every message index stays enumerable
             return await ctx['chan'].drain()
         if proc == 'classic-connect':
             return await c0.create_l2cap_channel(spec=l2cap.ClassicChannelSpec(psm=0x1001))
